@@ -281,12 +281,14 @@ fn apply(tree: &Tree, corr: &Corruption) -> Tree {
 }
 
 pub fn run(ctx: &Ctx) -> i32 {
-    let bounds = if ctx.thorough() {
-        Bounds { max_internal: 4, max_arity: 2, max_leaves: 5, chance_infosets: true, degenerate: true }
-    } else {
-        Bounds { max_internal: 3, max_arity: 3, max_leaves: 5, chance_infosets: true, degenerate: true }
-    };
-    let shapes = raw_shapes(&bounds);
+    let bounds = Bounds { max_internal: 3, max_arity: 3, max_leaves: 5, chance_infosets: true, degenerate: true };
+    let mut shapes = raw_shapes(&bounds);
+    if ctx.thorough() {
+        // thorough: additionally the binary shapes with four internal nodes get the full treatment
+        // (action variants and single corruptions); the quick tier only labels them (pass (c))
+        let deeper = Bounds { max_internal: 4, max_arity: 2, max_leaves: 5, chance_infosets: true, degenerate: true };
+        shapes.extend(raw_shapes(&deeper).into_iter().filter(|s| s.num_internal() == 4));
+    }
     ctx.set("universe", json!({"max_internal_nodes": bounds.max_internal, "max_arity": bounds.max_arity, "max_leaves": bounds.max_leaves, "raw_shapes": shapes.len()}));
     // (pairs of corruptions on shapes with three internal nodes do not finish within an hour)
     let pair_limit_internal = 2;
